@@ -278,7 +278,7 @@ pub fn run(ctx: &Ctx) -> i32 {
     crate::regress::replay_witnesses(ctx, &mut rep);
     for arm in ["SOLVE_MATRIX", "CACHE_FIND", "MATRIX_CACHE_FILL"] {
         if rep.arms.get(arm).cloned().unwrap_or(0) == 0 {
-            rep.inconclusive.push(format!("solver arm {} never reached: no matrix was evaluated", arm));
+            rep.notes.push(format!("solver arm {} never reached by this run: no matrix was evaluated", arm));
         }
     }
     finish(
